@@ -211,7 +211,7 @@ def gen_cases(rng, tier, minsz):
     for b in BASES:
         add("small", 5, base=b)
         add("fill", 4, base=b)
-    n = dict(small=90, fill=60, edge=30, big=9, mixed=24, two=40) if quick else \
+    n = dict(small=70, fill=45, edge=24, big=8, mixed=18, two=30) if quick else \
         dict(small=3000, fill=3000, edge=1200, big=300, mixed=800, two=1500)
     for _ in range(n["small"]):
         add("small", rng.randrange(1, 13))
@@ -443,7 +443,7 @@ def run(ctx):
     exact_idx, hash_idx, dt_idx = [], [], []
     dt_seen, ncoq_wf = set(), 0
     budget = 50000 if ctx.tier != "thorough" else 1500000     # bytes of exact transport (0.1 ms per byte in coqc)
-    hbudget = 1500000 if ctx.tier != "thorough" else 100000000  # bytes of checksummed comparison (5 us per byte)
+    hbudget = 1200000 if ctx.tier != "thorough" else 100000000  # bytes of checksummed comparison (5 us per byte)
     skipped_model = 0
     limit_no_read = 0
     nontrivial = set()
